@@ -10,6 +10,8 @@ import (
 
 	"github.com/ipfs/go-cid"
 	"github.com/ipfs/go-unixfsnode/data/builder"
+	quickbuilder "github.com/ipfs/go-unixfsnode/data/builder/quick"
+	"github.com/ipld/go-ipld-prime"
 	"github.com/ipld/go-ipld-prime/datamodel"
 	"pgregory.net/rapid"
 )
@@ -285,5 +287,101 @@ func TestC16_P_AutoShardedFaults(t *testing.T) {
 			}
 		}
 		ev.Sample(map[string]any{"entries": len(es), "write_opens": n})
+	})
+}
+
+const c16RepointRule = "case = a build (file, symlink, plain / sharded / empty directory, quick builder) run twice through ONE *ipld.LinkSystem whose storage is re-pointed at a fresh store (optionally with a write fault armed) between the two runs; " +
+	"oracle = the second run's result obeys the same rules against the second store: a returned link's whole DAG is in THAT store, a fault armed there surfaces as error + nil link, nothing is written to the first store any more; non-trivial = every case; distinct by (kind, size bucket, fault?)"
+
+// TestC16_P_RepointedLinkSystem: builders must write where the link system points now, not where it pointed on an earlier call.
+func TestC16_P_RepointedLinkSystem(t *testing.T) {
+	ev := newEvid(t, c16RepointRule)
+	rapid.Check(t, func(t *rapid.T) {
+		kind := rapid.SampledFrom([]string{"file", "emptyfile", "symlink", "plain", "emptydir", "sharded", "quick"}).Draw(t, "kind")
+		var es []entrySpec
+		ext := map[cid.Cid]bool{}
+		if kind == "plain" || kind == "sharded" || kind == "quick" {
+			names, _ := genNames(t, nameOpts{Max: 40})
+			for _, n := range names {
+				e := entryFor(n, 1)
+				es = append(es, e)
+				ext[e.Cid] = true
+			}
+		}
+		content := lcgBytes(rapid.IntRange(1, 60).Draw(t, "len"), 3, 0)
+		fanout := rapid.SampledFrom([]int{8, 16, 256}).Draw(t, "fanout")
+		run := func(ls *ipld.LinkSystem) (datamodel.Link, uint64, error) {
+			switch kind {
+			case "file":
+				var l datamodel.Link
+				var sz uint64
+				var err error
+				withWidth(2, func() { l, sz, err = builder.BuildUnixFSFile(bytes.NewReader(content), "size-4", ls) })
+				return l, sz, err
+			case "emptyfile":
+				return builder.BuildUnixFSFile(bytes.NewReader(nil), "", ls)
+			case "symlink":
+				return builder.BuildUnixFSSymlink("target/of/link", ls)
+			case "plain":
+				return builder.BuildUnixFSDirectory(pbEntries(es), ls)
+			case "emptydir":
+				return builder.BuildUnixFSDirectory(nil, ls)
+			case "sharded":
+				return builder.BuildUnixFSShardedDirectory(fanout, 0x22, pbEntries(es), ls)
+			}
+			m := map[string]quickbuilder.Node{}
+			for _, e := range es {
+				m[e.Name] = qbNode{cidLink(e.Cid), int64(e.Tsize)}
+			}
+			var l datamodel.Link
+			var sz int64
+			err := quickbuilder.Store(ls, func(b *quickbuilder.Builder) error {
+				n := b.NewMapDirectory(m)
+				l = n.Link()
+				sz, _ = n.Size()
+				return nil
+			})
+			return l, uint64(sz), err
+		}
+		st1 := NewStore()
+		ls := st1.LinkSystem()
+		var l1 datamodel.Link
+		var err error
+		must(t, "first build", func() { l1, _, err = run(ls) })
+		if err != nil || l1 == nil {
+			t.Fatalf("C16 re-point [%s]: first build failed: %v", kind, err)
+		}
+		blocks1 := st1.Len()
+		st2 := NewStore()
+		fault := kind != "quick" && rapid.Bool().Draw(t, "armFault")
+		if fault {
+			st2.FailCommitAt = 1
+		}
+		ls.StorageWriteOpener, ls.StorageReadOpener = st2.openWrite, st2.openRead
+		var l2 datamodel.Link
+		must(t, "second build", func() { l2, _, err = run(ls) })
+		if st1.Len() != blocks1 {
+			t.Fatalf("C16 re-point [%s]: the second build wrote %d block(s) into the store the link system no longer points at", kind, st1.Len()-blocks1)
+		}
+		if fault {
+			if err == nil || l2 != nil {
+				t.Fatalf("C16 re-point [%s]: a commit fault armed on the re-pointed store was ignored: link=%v err=%v", kind, l2, err)
+			}
+		} else {
+			if err != nil || l2 == nil {
+				t.Fatalf("C16 re-point [%s]: second build failed: %v", kind, err)
+			}
+			if cidOf(l2) != cidOf(l1) {
+				t.Fatalf("C16 re-point [%s]: second build returned %v, first %v", kind, l2, l1)
+			}
+			_, dangling := st2.Reachable(cidOf(l2))
+			for _, d := range dangling {
+				if !ext[d] {
+					t.Fatalf("C16 re-point [%s]: the link returned by the second build is not backed by the store the link system points at now (block %s missing, %d blocks there)", kind, d, st2.Len())
+				}
+			}
+		}
+		ev.Case(fmt.Sprintf("%s n=%s fault=%v", kind, bucket(len(es)), fault), true, "kind:"+kind, fmt.Sprintf("fault:%v", fault))
+		ev.Sample(map[string]any{"kind": kind, "entries": len(es), "fault_on_second_store": fault})
 	})
 }
